@@ -58,11 +58,20 @@ CHECKS = [
   "all single-metric stores over 7 kind/type shapes x key lists {[], [a], [b,a]} x all label-set contents of size<=2 x value rotations (ints, floats incl. non-finite, strings, histogram observation sets) and pairs with a second program's metric, x prefix x hostname; formats varz, graphite (HTTP and push formatter), statsd, collectd, JSON; each output parsed by an independent per-format parser: exactly one well-formed record per (metric, label set) in scope carrying that label set's own value and timestamp",
   "label values are free of blanks and of the target formats' separators (the property's precondition); kinds outside a format's scope are neither required nor forbidden",
   "exhaustive small-scope enumeration of stores with independent per-format parsers as oracle", "§3 C22"),
+ ("C06", "hsx", "model_checking",
+  "explicit-state BFS (depth 4 for 2 program names x 8 versions, depth 3 for 3 names; thorough 5/4/6) over histories of {load(version as name), unload(name), line} on the real Runtime under the controlled scheduler; versions all declare `foo` (int counter x2 sources, float counter, gauge, text, dimensioned counter, one raising runtime errors, one that does not compile); per transition the store contents and the Prometheus samples (real Collect) of every program are compared with those of the history projected onto that program alone on a fresh Runtime (differential oracle); the only tolerated interaction is a kind-clash refusal",
+  "default (deviation-free) schedule with a quiescence barrier after each step; states are de-duplicated on observable state plus a reflective dump of the whole Runtime object graph (unexported fields included), so hidden implementation state is not merged away",
+  "explicit-state model checking of the implementation (multi-process BFS, replay from the initial state, differential oracle)", "§3 C06"),
+ ("C14", "hsx", "model_checking",
+  "explicit-state BFS from 'V0 loaded' (depth 4-5; thorough 5-7) over histories of {load(Vi) for 10 versions of one file: identical, comment appended, declaration moved, kind / value type / keys changed, syntax error, name clashing with another program, body-only edit; lines creating label sets, one with an old stamp and pending expiry, marking expiry; Store.Gc; unload}, with and without a second program, and with OmitMetricSource: identical source changes neither store nor VM identity; a failed load leaves store and VM untouched and stays invisible in every continuation (differential: same history without the failed loads); a kept declaration keeps label sets, values and expiry marks; no two registered metrics of the program share a name and a label set",
+  "default schedule with quiescence barriers (reload racing a line in flight is C20); export observed as the store contents registered for the program; state key includes a reflective dump of the Runtime object graph",
+  "explicit-state model checking of the implementation (multi-process BFS, replay from the initial state, invariants + differential oracle)", "§3 C14"),
 ]
 
 ENGINES = [
  {"name": "seqx", "path": "engine/seqx", "kind_free_text": "bounded exhaustive enumeration of inputs and explicit-state BFS over operation histories of sequential code against reference models; every transition executes the real code"},
  {"name": "gosim", "path": "engine/vrt + engine/instrument", "kind_free_text": "source-level instrumentation (sync, atomic, go, channel operations, select) + cooperative controlled scheduler + stateless DFS with iterative preemption bounding over the real mtail code"},
+ {"name": "hsx", "path": "engine/hsx + engine/vrt", "kind_free_text": "multi-process explicit-state BFS over operation histories of real mtail components running under the gosim scheduler (quiescence barrier after every step); every transition replays the history on a fresh instance in a worker process; states de-duplicated on observable state plus a reflective dump of the implementation object graph"},
  {"name": "mtlgen", "path": "engine/mtlgen + engine/refsem", "kind_free_text": "exhaustive typed program enumerator and an independent reference interpreter for the mtail language"},
 ]
 
